@@ -29,7 +29,7 @@ ASSUMPTIONS = [
 ]
 
 SCHEMA = {
-    "m": [("api", 9), ("mt", 3), ("fs", progs.N_FS), ("rf", 2)],
+    "m": [("api", 9), ("mt", 3), ("fs", progs.N_FS), ("rf", 2), ("kf", 2)],
     "a": [
         ("style", 10),
         ("typed", 2),
@@ -39,6 +39,7 @@ SCHEMA = {
         ("ef", progs.N_FS),
         ("xf", 3),
         ("rf", 2),
+        ("kf", 2),
     ],
 }
 
@@ -47,6 +48,63 @@ def BOUNDS(tier):
     if tier == "quick":
         return {"plans": [[3, 2], [4, 1]]}
     return {"plans": [[4, 2], [5, 1], [3, 3]]}
+
+
+def scenario_type_key_fields():
+    """Applications use field names of their own choosing: an action with a start / success field or a
+    log_call parameter called ``message_type``, a message with a field called ``action_status``.  The file
+    must still parse back to the executed tree (field values included)."""
+    import io
+    from eliot import start_action, log_message, log_call, to_file
+
+    viol = []
+
+    def go():
+        buf = io.BytesIO()
+        to_file(buf)
+
+        @log_call(action_type="app:handle")
+        def handle(message_type, payload):
+            log_message("app:inside", n=2)
+            return "ok"
+
+        with start_action(action_type="app:outer", message_type="PING") as a:
+            log_message("app:first", n=1)
+            handle("QUERY", [1])
+            with start_action(action_type="app:inner") as b:
+                b.add_success_fields(message_type="PONG")
+            a.log("job:poll", action_status="running", n=3)
+        log_message("app:alone", action_status="idle")
+        return buf.getvalue()
+
+    raw = world.run_isolated(go)
+    try:
+        dicts = progs.parse_lines(raw)
+        tasks = progs.order_tasks(list(progs.Parser.parse_stream(dicts)), dicts)
+    except Exception as e:
+        return [("type-key-fields:parser-raised", {"error": repr(e)[:200]})]
+    got = [progs.from_written(t.root()) for t in tasks]
+    want = [
+        {"k": "a", "type": "app:outer", "status": "succeeded", "start": {"message_type": "PING"}, "end": {}, "children": [
+            {"k": "m", "type": "app:first", "fields": {"n": 1}},
+            {"k": "a", "type": "app:handle", "status": "succeeded", "start": {"message_type": "QUERY", "payload": [1]},
+             "end": {"result": "ok"}, "children": [{"k": "m", "type": "app:inside", "fields": {"n": 2}}]},
+            {"k": "a", "type": "app:inner", "status": "succeeded", "start": {}, "end": {"message_type": "PONG"}, "children": []},
+            {"k": "m", "type": "job:poll", "fields": {"action_status": "running", "n": 3}},
+        ]},
+        {"k": "m", "type": "app:alone", "fields": {"action_status": "idle"}},
+    ]
+    if len(got) != len(want):
+        viol.append(("type-key-fields:task-count", {"got": len(got), "want": len(want), "shapes": progs.shape_sig(got)}))
+    else:
+        for i, (w, g) in enumerate(zip(want, got)):
+            d = progs.first_diff(w, g)
+            if d:
+                viol.append(("type-key-fields:tree-mismatch", {"task": i, "path": d[0], "expected": repr(d[1])[:200], "got": repr(d[2])[:200]}))
+                break
+    if any(not t.is_complete() for t in tasks):
+        viol.append(("type-key-fields:task-incomplete", {}))
+    return viol
 
 
 def scenario_message_reuse():
@@ -84,7 +142,7 @@ def scenario_message_reuse():
 
 def units(tier):
     """unit = (n_nodes, max_devs, shape_index, only_exact_devs)"""
-    out = [["scenario", "message-reuse"]]
+    out = [["scenario", "message-reuse"], ["scenario", "field-named-like-a-type-key"]]
     done = {}  # n -> devs already fully covered
     for n_max, devs in BOUNDS(tier)["plans"]:
         for n in range(1, n_max + 1):
@@ -145,7 +203,7 @@ def check_program(prog):
         tasks = list(progs.Parser.parse_stream(dicts))
     except Exception as e:
         return viol + [("parser-raised", {"error": repr(e)})], "parser-raised"
-    tasks.sort(key=lambda t: t.root().task_uuid)
+    tasks = progs.order_tasks(tasks, dicts)
     uuids = [t.root().task_uuid for t in tasks]
     if len(set(uuids)) != len(uuids):
         viol.append(("task-yielded-twice", {"uuids": uuids}))
@@ -198,8 +256,8 @@ def _norm_ref(r):
 
 def run_case(prog):
     if prog and prog[0] == "scenario":
-        v = scenario_message_reuse()
-        return Result(outcome=["scenario", len(v)], violations=v)
+        v = scenario_message_reuse() if prog[1] == "message-reuse" else scenario_type_key_fields()
+        return Result(outcome=["scenario", prog[1], len(v)], violations=v)
     viol, outcome = check_program(prog)
     nodes = progs.walk(prog)
     nontrivial = len(nodes) > 1 or any(v for n in nodes for v in n[1].values())
